@@ -162,6 +162,36 @@ def check_big_queue(run, case, npops=62000):
     finally:
         repo.drop_rules(name)
 
+def long_session_case(rng):
+    """One structure D2D2D2 over 48 values of pairwise different probability: 110 592 pre-terminals of one guess each, run through the real main() - whatever the
+    session does every so many pre-terminals (progress lines, bookkeeping), the order of the stream is the order of the probabilities."""
+    vals = rng.sample(['%02d' % v for v in range(100)], 48)
+    w = sorted((rng.uniform(1.0, 2.0) * (0.93 ** i) for i in range(48)), reverse=True)
+    tot = sum(w)
+    return {'spec': {'encoding': 'utf-8', 'uuid': 'longs-%08x' % rng.getrandbits(32), 'base': [['D2D2D2', 1.0]], 'prince': [], 'terms': {'D2': [[v, x / tot] for v, x in zip(vals, w)]}, 'omen': None},
+            'long_session': True, 'flags': {'skip_brute': False, 'all_lower': False, 'folder': 'Grammar'}}
+
+def check_long_session(run, case):
+    from .. import session
+    name, path = gstream.materialise(case['spec'], 'c01long')
+    sn = session.new_session_name('c01long')
+    try:
+        r = session.run_main(['-r', name, '-s', sn], max_guesses=200000)
+        run.ev('long_session_runs'); run.ev('POP', len(r.pops)); run.ev('prob_checked', len(r.pops))
+        if r.exc is not None:
+            run.violation(f'main() raised {r.exc!r} in a session of {len(r.pops)} pre-terminals', case, observed=r.stderr[-300:]); return
+        if len(r.pops) != 48 ** 3:
+            run.violation(f'a session over 48^3 = 110592 pre-terminals emitted {len(r.pops)}', case); return
+        prev = None
+        for k, p_ in enumerate(r.pops):
+            if prev is not None and p_['prob'] > prev:
+                run.violation(f'order: pre-terminal {k + 1} of a long session has probability {p_["prob"]!r} > previous {prev!r}', case, observed=[x['prob'] for x in r.pops[max(0, k - 3):k + 2]]); return
+            prev = p_['prob']
+        run.case(h(['long-session', case['spec']['uuid']]))
+    finally:
+        session.drop_session(sn)
+        repo.drop_rules(name)
+
 def run(run, rng):
     run.required_events = ['POP', 'prob_checked', 'determinism_runs', 'runs_beside_a_live_abandoned_queue', 'big_queue_runs']
     run.min_distinct = 5
@@ -170,13 +200,17 @@ def run(run, rng):
                        'reported probability may differ from the exact rational product by (n+3) ulp (any multiplication order)']
     if run.shard[0] == 1 % run.shard[1] or (run.tier == 'thorough' and run.shard[0] < 3):
         run.guard(big_queue_case(rng), check_big_queue, seconds=600)
+    if run.shard[0] == 2 % run.shard[1]:
+        run.guard(long_session_case(rng), check_long_session, seconds=600)
     n = N[run.tier]
     for i in range(n):
         case = gen_case(rng)
         run.guard(case, check_case, determinism=(i % (6 if run.tier == 'quick' else 40) == 0), seconds=60)
 
 def replay(run, case):
-    if case['case'].get('big_queue'):
+    if case['case'].get('long_session'):
+        check_long_session(run, case['case'])
+    elif case['case'].get('big_queue'):
         import random
         check_big_queue(run, big_queue_case(random.Random(case['case'].get('hseed', 0))))
     else:
